@@ -579,8 +579,18 @@ class ForestRuleExtractor:
         Find a rule that have the given rule key.
         """
         all_classes = (rule_key.parent,) + rule_key.children
+        # A factory can produce a rule for another class than the one it is applied
+        # to. Such a rule is found by replaying the pack on the class it was produced
+        # from, which need not be a class of the key: the classes of the key are
+        # tried first, then every other class known when the search starts.
+        other_classes = (
+            label
+            for label in range(len(self.classdb.label_to_info))
+            if label not in all_classes
+        )
         all_normal_rules = itertools.chain.from_iterable(
-            self._rules_for_class(c) for c in all_classes
+            self._rules_for_class(c)
+            for c in itertools.chain(all_classes, other_classes)
         )
         for normal_rule in all_normal_rules:
             try:
